@@ -1,9 +1,11 @@
 #!/bin/bash
-# Offline setup: build the simulator once (warms the Go build cache).
+# Offline setup: build the simulator (plain and -race) once; warms the Go build cache.
 set -e
 export GOFLAGS=-mod=mod GOPROXY=off GOSUMDB=off GOTOOLCHAIN=local
 ROOT="$(cd "$(dirname "$0")" && pwd)"
 mkdir -p "$ROOT/bin" "$ROOT/evidence" "$ROOT/replays"
 cp /repo/go.sum "$ROOT/sim/go.sum"
-cd "$ROOT/sim" && go build -tags verif -o "$ROOT/bin/artsim" .
+cd "$ROOT/sim"
+go build -tags verif -o "$ROOT/bin/artsim" .
+go build -tags verif -race -o "$ROOT/bin/artsim-race" .
 echo "artsim built"
